@@ -1113,6 +1113,13 @@ class TLSConnection(TLSRecordLayer):
                 else:
                     break
 
+            # only one HelloRetryRequest is allowed (RFC 8446, section 4.1.4)
+            if result.random == TLS_1_3_HRR:
+                for result in self._sendError(
+                        AlertDescription.unexpected_message,
+                        "Second HelloRetryRequest received"):
+                    yield result
+
         serverHello = result
 
         # Get the server version.  Do this before anything else, so any
@@ -2771,8 +2778,11 @@ class TLSConnection(TLSRecordLayer):
                     getattr(CertificateCompressionAlgorithm, algo) for algo
                     in settings.certificate_compression_receive
                 ]
-                extensions.append(CompressedCertificateExtension().create(
-                    algos_numbers))
+                # an empty list of algorithms is malformed
+                if algos_numbers:
+                    extensions.append(
+                        CompressedCertificateExtension().create(
+                            algos_numbers))
 
         certificate_request.create(context=context, sig_algs=valid_sig_algs,
                                    extensions=extensions)
@@ -3194,9 +3204,12 @@ class TLSConnection(TLSRecordLayer):
                         getattr(CertificateCompressionAlgorithm, algo) for algo
                         in settings.certificate_compression_receive
                     ]
-                    cert_req_comp_cert_ext = CompressedCertificateExtension()\
-                        .create(algos_numbers)
-                    extensions.append(cert_req_comp_cert_ext)
+                    # an empty list of algorithms is malformed
+                    if algos_numbers:
+                        cert_req_comp_cert_ext = \
+                            CompressedCertificateExtension()\
+                            .create(algos_numbers)
+                        extensions.append(cert_req_comp_cert_ext)
 
                 certificate_request = CertificateRequest(self.version)
                 certificate_request.create(
